@@ -6,6 +6,14 @@ mod rat;
 mod io;
 mod k_matrix;
 mod k_vector;
+mod k_complex;
+mod k_banded;
+mod k_tridiag;
+mod k_sparse;
+mod k_poly;
+mod k_newton;
+mod k_mesh;
+mod fnast;
 
 use std::io::{BufRead, Write};
 use std::panic::{catch_unwind, AssertUnwindSafe};
@@ -28,13 +36,23 @@ fn classify(msg: &str) -> &'static str {
 
 fn dispatch(elt: &str, kind: &str, a: &mut Args, out: &mut Out) {
     let fam = kind.split('.').next().unwrap_or("");
-    match (fam, elt) {
-        ("mat", "rat") => k_matrix::run::<Rat>(kind, a, out),
-        ("mat", "f64") => k_matrix::run::<f64>(kind, a, out),
-        ("mat", "cplx") => k_matrix::run::<Cmplx>(kind, a, out),
-        ("vec", "rat") => k_vector::run::<Rat>(kind, a, out),
-        ("vec", "f64") => k_vector::run::<f64>(kind, a, out),
-        ("vec", "cplx") => k_vector::run::<Cmplx>(kind, a, out),
+    macro_rules! by_elt { ($m:ident) => { match elt {
+        "rat" => $m::run::<Rat>(kind, a, out),
+        "f64" => $m::run::<f64>(kind, a, out),
+        "cplx" => $m::run::<Cmplx>(kind, a, out),
+        _ => panic!("harness: unknown family/elt {} {}", kind, elt),
+    } } }
+    match fam {
+        "mat" => by_elt!(k_matrix),
+        "vec" => by_elt!(k_vector),
+        "band" => by_elt!(k_banded),
+        "tri" => by_elt!(k_tridiag),
+        "sp" => by_elt!(k_sparse),
+        "poly" => by_elt!(k_poly),
+        "newton" => by_elt!(k_newton),
+        "mesh" => by_elt!(k_mesh),
+        // Complex<T> kinds carry their own element handling (elt = "crat" | "cplx")
+        "cx" => k_complex::run_cx(elt, kind, a, out),
         _ => panic!("harness: unknown family/elt {} {}", kind, elt),
     }
 }
